@@ -155,6 +155,7 @@ def corpus_sources():
     plain (raw) string literal - harvested at run time."""
     import ast
     import glob
+    import warnings
     srcs = []
     repo = os.environ.get('VERIF_REPO', '/repo')
     for p in sorted(glob.glob(repo + '/tests/samples/*.tex')):
@@ -173,6 +174,42 @@ def corpus_sources():
             if isinstance(node, ast.Constant) and isinstance(node.value, str) and '\\' in node.value \
                     and 2 <= len(node.value) <= 3000 and '>>>' not in node.value:
                 srcs.append(node.value)
+    # TeX literals inside doctest examples of docstrings and of the documentation (.rst)
+    import doctest
+    texts = []
+    for p in sorted(glob.glob(repo + '/TexSoup/*.py')):
+        try:
+            with warnings.catch_warnings():
+                warnings.simplefilter('ignore')
+                t = ast.parse(open(p, encoding='utf-8').read())
+        except SyntaxError:
+            continue
+        for node in ast.walk(t):
+            if isinstance(node, (ast.Module, ast.ClassDef, ast.FunctionDef)):
+                d = ast.get_docstring(node, clean=False)
+                if d:
+                    texts.append(d)
+    for p in sorted(glob.glob(repo + '/docs/source/*.rst')) + sorted(glob.glob(repo + '/README.md')):
+        try:
+            texts.append(open(p, encoding='utf-8').read())
+        except OSError:
+            pass
+    parser = doctest.DocTestParser()
+    for text in texts:
+        try:
+            examples = parser.get_examples(text)
+        except ValueError:
+            continue
+        for ex in examples:
+            try:
+                with warnings.catch_warnings():
+                    warnings.simplefilter('ignore')
+                    t = ast.parse(ex.source)
+            except SyntaxError:
+                continue
+            for node in ast.walk(t):
+                if isinstance(node, ast.Constant) and isinstance(node.value, str) and '\\' in node.value and 2 <= len(node.value) <= 3000:
+                    srcs.append(node.value)
     seen, out = set(), []
     for s in srcs:
         if s not in seen:
